@@ -448,6 +448,38 @@ func wire0(t *Ty) bool {
 	return true
 }
 
+// guardOK: the documented guard of the round trip: no NON-EMPTY slice (in an exported position) whose elements
+// occupy no bytes on the wire — the reader rejects a slice length above the number of remaining bytes.
+func guardOK(t *Ty, v *Val) bool {
+	switch t.K {
+	case KSlice:
+		if v.K == VNil {
+			return true
+		}
+		if wire0(t.E) && len(v.L) > 0 {
+			return false
+		}
+		for _, x := range v.L {
+			if !guardOK(t.E, x) {
+				return false
+			}
+		}
+	case KArray:
+		for _, x := range v.L {
+			if !guardOK(t.E, x) {
+				return false
+			}
+		}
+	case KStruct:
+		for i, x := range v.L {
+			if t.F[i].Ex && !guardOK(t.F[i].T, x) {
+				return false
+			}
+		}
+	}
+	return true
+}
+
 // hasWire0Loop: a slice whose elements occupy no bytes: a hostile length makes Read iterate without input
 func hasWire0Loop(t *Ty) bool {
 	switch t.K {
